@@ -66,6 +66,22 @@ PROPS = {
         streams=[("rcut", 800, 20000)],
         assumptions=[ASSUME_BUFIO],
     ),
+    "C06": P(
+        technique="Lean 4 theorems over the reader model (running sum with int64 wrap-around, all sources) + differential correspondence around the limit",
+        level_text="Proof: the frame whose header makes the running sum exceed the limit is refused before any payload byte is consumed, with ErrReadLimit and a 1009 close frame; a message whose data frames sum to at most L is read in full whatever its fragmentation, interleaved controls and read sizes (limit_admits, from C03.read_message); a new text/binary frame restarts the sum, so what the application did with earlier messages does not matter (regression sentinel for F2); a top-bit length is refused the same way with a 1009 (F3). Tie: limits chosen at message size -1/0/+1, fragmentations crossing at any frame, abandon points, huge and negative 64-bit lengths (rfuzz), on the real package and the model.",
+        level_note="Memory: the model has no allocator; the claim rests on the structure (Peek of at most 125 bytes, Read into the caller's buffer, Discard in 8 KiB steps) pinned by the make/index site inventory, plus a TotalAlloc bound measured in the fuzz stream.",
+        lean=["WS.Props.C06"],
+        streams=[("rlimit", 900, 16000), ("rfuzz", 400, 8000)],
+        assumptions=[ASSUME_BUFIO],
+    ),
+    "C08": P(
+        technique="Lean 4 theorems over the reader+writer model + differential correspondence",
+        level_text="Proof: while a conformant message is read to its end the handler log grows by exactly the interleaved pings/pongs, in wire order, with exact payloads (any fragmentation, chunking, read sizes); a ping of 0..125 bytes is answered by one pong with the identical payload; a close with an accepted code and UTF-8 reason is handed to the handler once, echoed with the same code, and reported as CloseError{code, reason}; a handler error is permanent. Tie: controls at every position of 1-5-fragment messages, payload lengths {0,1,2,7,50,124,125}, all accepted close-code classes, default / recording / failing handlers, both roles; handler log and reply frames compared exactly; oracle: handler log = control frames in wire order, pongs = pings.",
+        level_note="Default-handler theorems are stated for a client-side reader (unmasked peer frames); the server side differs only by unmasking (C01.mask_involutive) and is covered by correspondence.",
+        lean=["WS.Props.C08"],
+        streams=[("rconf", 900, 16000), ("rviol", 300, 6000)],
+        assumptions=[ASSUME_BUFIO],
+    ),
     "C09": P(
         technique="Lean 4 theorem over an interleaving semantics (invariant by induction over the step relation) + decide over generated skeletons + differential correspondence",
         level_text="Proof: in every reachable state of every interleaving of any number of threads of the lock protocol a close frame is last on the wire, nothing is appended after it and later writers fail (WS.Props.C09, Lean kernel). The protocol is tied to today's Conn.write/WriteControl by WellLocked decided over statement skeletons regenerated from /repo, and the sequential model is tied by differential runs (close sent at every step of random programs, transport faults).",
